@@ -139,7 +139,10 @@ def run_mc(pid, name, module, cfg_text, workers=8, timeout=900, coverage=False, 
     # (the thorough tiers ask for coverage; their alphabets need a larger heap)
     cmd = ["java", "-XX:+UseParallelGC", "-Xmx28g" if coverage else "-Xmx8g", "-cp", CP, "tlc2.TLC", "-workers", str(workers),
            "-metadir", os.path.join(d, "md"), "-cleanup", "-noGenerateSpecTE", "-config", cfg]
-    if coverage:
+    # TLC's -coverage makes the recursive operators of these specifications (evaluated through the Rat override)
+    # an order of magnitude slower - the portfolio models went from seconds to more than 25 minutes - so it is
+    # collected only on request
+    if coverage and os.environ.get("VERIF_COVERAGE") == "1":
         cmd += ["-coverage", "1"]
     cmd += [os.path.join(SPEC, module + ".tla")]
     rc, _, dt = sh(cmd, timeout=timeout, cwd=SPEC, env=env, stdout_path=outp)
